@@ -34,6 +34,7 @@ func checkC13(r *Run) propMeta {
 	p := r.MustPkg("cardinality")
 	assertionHelperType = pureAssertionHelper(FuncDecls(p), p.Types)
 	defer func() { assertionHelperType = nil }()
+	checkStopOnFalse(r, p)
 	sibs := []string{"bitmap32", "bitmap64"}
 	shapes := map[string]map[string]string{}
 	for _, tname := range sibs {
